@@ -74,6 +74,12 @@ def filter_threshold(a, row):
     return float(np.median(grid[inside, 0]))
 
 
+def has_boolean(a):
+    if a["k"] in ("union", "cut", "inter"):
+        return True
+    return any(has_boolean(v) for v in a.values() if isinstance(v, dict))
+
+
 class Ctx:
     pass
 
@@ -163,7 +169,7 @@ def run_item(item):
             return ("outside", "%d of %d returned points are not in the set, e.g. %s" % (int((~ok).sum()), m, row))
         return None
 
-    def execute(entry, cfg, fn, prm_rows, carried, deviate, extra_check=None, qual=""):
+    def execute(entry, cfg, fn, prm_rows, carried, deviate, extra_check=None, qual="", errors_ok=False):
         """run fn() under the seam for all scripts with <= b deviations; fn returns Points or list of Points"""
         state = "%s|%s|%s" % (name, entry, cfg)
         res["states"].append(state)
@@ -197,6 +203,9 @@ def run_item(item):
             if err:
                 if err[0] == "rejected":
                     res["rejected"] += 1
+                    continue
+                if err[0] == "error" and errors_ok:
+                    res["rejected"] += 1          # only what IS returned is judged for this entry point
                     continue
                 if err[0] == "error":
                     viol("C01|error|%s|%s|%s%s" % (err[1], entry, top_sig(a), qual),
@@ -252,13 +261,19 @@ def run_item(item):
             k = len(batch[fv[0]]) if fv else 0
             for n in ns:
                 for meth in ("sample_random_uniform", "sample_grid"):
-                    if meth == "sample_grid" and (n > 100 or k > 1):
-                        continue   # the sampler layer calls domain.sample_grid with at most one parameter row
+                    if meth == "sample_grid" and (n > 100 or (k > 1 and (n > 7 or has_boolean(a)))):
+                        continue
+                    # the sampler layer calls domain.sample_grid with at most one parameter row; called directly with
+                    # several rows some primitives raise conversion errors (counted as refusals) -- what is RETURNED for
+                    # several rows must still lie in the set, row by row.  Grids of Boolean combinations are built by
+                    # helpers written for ONE row (they compare the number of valid grid points with n), so several rows
+                    # are only driven through primitives, their boundaries and rigid motions of those
                     D = Bd.build_tp(a)
                     prm = prm_of(batch)
                     execute("domain.%s:n" % meth, "n=%d k=%d %s" % (n, k, batch),
                             (lambda D=D, meth=meth, n=n, prm=prm: getattr(D, meth)(n=n, params=prm)),
-                            prm, False, deviate=(2 if k <= 1 else 1) if (n in dev_ns and meth == "sample_random_uniform") else 0)
+                            prm, False, deviate=(2 if k <= 1 else 1) if (n in dev_ns and meth == "sample_random_uniform") else 0,
+                            errors_ok=(meth == "sample_grid" and k > 1))
             for d in densities(batch):
                 for meth in ("sample_random_uniform", "sample_grid"):
                     D = Bd.build_tp(a)
